@@ -171,6 +171,9 @@ func checkRoundTripFacts(c RTCase) (v *Violation, f rtFacts) {
 				continue // C05's business
 			}
 			open := orderOpen(t1.Root, doc)
+			if open && hasPredicate(t1.Root) {
+				continue // lax short-circuits make the value of a predicate depend on the member order of each run
+			}
 			if o1.Class != o2.Class {
 				if open {
 					continue // which error is met first depends on the member order
